@@ -29,11 +29,19 @@ import (
 )
 
 const (
-	repoDir    = "/repo"
-	verifDir   = "/verif"
-	overlayDir = "/verif/harness/overlay"
-	modelsPkg  = "metacontroller/pkg/zzverif/models"
+	repoDir   = "/repo"
+	modelsPkg = "metacontroller/pkg/zzverif/models"
 )
+
+// verifDir is the directory holding harness/, evidence/, replays/ — the
+// current directory (checks are run with cwd=/verif or a snapshot of it).
+var verifDir, overlayDir = func() (string, string) {
+	d := os.Getenv("VERIF_DIR")
+	if d == "" {
+		d, _ = os.Getwd()
+	}
+	return d, filepath.Join(d, "harness", "overlay")
+}()
 
 type HarnessSpec struct {
 	Pkg         string         `json:"pkg"`
